@@ -286,6 +286,37 @@ macro_rules! array3_harness {
         });
     };
 }
+harness_nodec!(
+    /// the element-count guard is *cumulative*: with an allocation limit of four elements, two blocks
+    /// of three booleans (each block alone is within the limit, the sum is not) must be rejected,
+    /// while a single block of three is accepted.
+    array_cumulative_limit, unwind = 12, {
+    set_limit(4 * std::mem::size_of::<Value>());
+    let x: [u8; 6] = any_bytes();
+    assume(x[0] <= 1 && x[1] <= 1 && x[2] <= 1 && x[3] <= 1 && x[4] <= 1 && x[5] <= 1);
+    let names = no_names();
+    let schema = array(Schema::Boolean);
+    let two = [6, x[0], x[1], x[2], 6, x[3], x[4], x[5], 0];
+    match run_dec_min(&schema, &names, two, 9, 9) {
+        Some((v, _)) => {
+            leak(v);
+            assert!(false, "an array whose blocks sum to more elements than the allocation limit admits was decoded");
+        }
+        None => {}
+    }
+    let one = [6, x[0], x[1], x[2], 0, 0, 0, 0, 0];
+    match run_dec_min(&schema, &names, one, 5, 5) {
+        Some((v, used)) => {
+            assert!(used == 5, "consumed differs");
+            leak(v);
+        }
+        None => assert!(false, "an array within the allocation limit was rejected"),
+    }
+    witness!(x[0] == 1, "reachable");
+    leak(schema);
+    leak(names);
+});
+
 array3_harness!(array_two_blocks_of_three, 0, 9, 6);
 array3_harness!(array_two_negative_blocks_of_three, 1, 11, 8);
 
@@ -340,6 +371,7 @@ pub const HARNESSES: &[(&str, fn())] = &[
     ("dec2::record_", record_::body),
     ("dec2::duration_", duration_::body),
     ("dec2::array_two_blocks_of_three", array_two_blocks_of_three::body),
+    ("dec2::array_cumulative_limit", array_cumulative_limit::body),
     ("dec2::array_two_negative_blocks_of_three", array_two_negative_blocks_of_three::body),
     ("dec2::ref_", ref_::body),
 ];
